@@ -37,6 +37,11 @@ CHECKS.update({
    text="Bounded-exhaustive for one parameter (all 16 flag combinations x 3 type constraints x callback behaviours x argument lists of length 0..2 over 10 argument kinds) plus a seeded sample of the full product (0..2 positional + optional variadic, lists up to length 4): each configuration becomes a real function.Spec whose callbacks record the arguments they receive; TLC checks on every recorded call that the implementation ran only after the type check accepted the same arguments, that callback arguments satisfy the declared contract, that errors name an offending argument, that short-circuit results carry the required marks and refinements, that panics come back as errors, and that ReturnTypeForValues agrees.",
    design_ref="DESIGN.md section 4 C10",
    note="Callback behaviours and RefineResult come from a fixed menu; where several arguments offend the contract accepts any offending index (today's order is not pinned). Trusted: spy callbacks, harness projection, TLC."),
+ "C19": dict(
+   technique="TLA+ definitions of members-by-path, path validity, replacement and path-indexed marks; TLC-enumerated values/paths/replacements replayed into real Walk/Transform/Path.Apply/UnmarkDeepWithPaths; TLA+ PathSet state machine with simulated behaviours replayed on real PathSets; TLC trace validation",
+   text="Bounded-exhaustive plus conformance: for every generated value (null, unknown and marked members at every depth) TLC checks the recorded Walk callback log against VisitSet (each member once, parents first, reported paths lead back), the identity Transform, UnmarkDeepWithPaths/MarkWithPaths round trip, Path.Apply on every path of length <= 2 over a 13-step menu (succeeds exactly when ValidPath), and every single-member replacement against ReplaceMember; PathSetSM.tla (Add/AddAllSteps/Remove/Has/Equal/Empty/Union/Intersection/Subtract/SymmetricDifference over hash-colliding paths) is replayed from simulated behaviours with the real set compared to the model after every step.",
+   design_ref="DESIGN.md section 4 C19",
+   note="Path application into unknown lists/maps is not decided (the property does not fix it). PathSet behaviours are simulated (sampled). Trusted: harness projection of paths and values, TLC."),
 })
 
 NOT_APPLICABLE = {}
